@@ -54,6 +54,9 @@ def pytest_warning_recorded(warning_message, when, nodeid, location):
 
 def pytest_sessionfinish(session, exitstatus):
     _w({"k": "finish", "side": "worker" if os.environ.get("PYTEST_XDIST_WORKER") else "ctl", "exitstatus": int(exitstatus)})
+    if _is_worker(session.config) and os.environ.get("VERIF_FINISH_WARN"):
+        # a warning raised while the worker's session ends (as coverage / reporting plugins do): it must still reach the controller
+        warnings.warn(UserWarning("finish-warning-of-" + os.environ.get("PYTEST_XDIST_WORKER", "?")))
 
 @pytest.fixture(autouse=True)
 def _verif_identity(request, worker_id, testrun_uid, tmp_path_factory):
@@ -354,6 +357,9 @@ def e2e(tier: str, seed: int, what: str) -> CompResult:
     for si in range(nsuites):
         root = scratch / f"s{si}"
         files = gen_suite(rng, with_warnings=(what == "warnings"), with_crash=(what in ("crash", "crash-each") or (what == "identity" and si % 2 == 0)), groups=True)
+        if what == "warnings" and si % 2 == 1:
+            # a config-time warning in every worker, issued before its interactor exists ("No files were found in testpaths")
+            files["pytest.ini"] = "[pytest]\ntestpaths = no_such_dir\n"
         write_suite(root, files)
         combos = [(rng.choice(modes[:5]), rng.choice([1, 2, 3]))] if tier == "quick" else [(m, rng.choice([1, 2, 4])) for m in rng.sample(modes[:5], 3)]
         if what == "crash-each":
@@ -372,7 +378,13 @@ def e2e(tier: str, seed: int, what: str) -> CompResult:
                 args = [a for k in range(n) for a in ("--tx", f"popen//id=env{chr(65 + k)}")] + ["--dist", mode]
             else:
                 args = ["-n", str(n), "--dist", mode]
-            d = run_pytest(root, args, f"{mode}{n}")
+            # a nested run: the controller itself runs under an outer xdist worker and inherits that worker's identity variables;
+            # the inner workers must still get their own
+            nested = what == "identity" and (n + len(mode)) % 2 == 0
+            extra = {"PYTEST_XDIST_WORKER": "gw7", "PYTEST_XDIST_WORKER_COUNT": "9", "PYTEST_XDIST_TESTRUNUID": "outer-run-uid"} if nested else None
+            if what == "warnings":
+                extra = {"VERIF_FINISH_WARN": "1"}
+            d = run_pytest(root, args, f"{mode}{n}", env_extra=extra)
             out.append((root, files, mode, n, base, d))
         return out
 
@@ -388,7 +400,7 @@ def e2e(tier: str, seed: int, what: str) -> CompResult:
         if len(workers) >= 2:
             res.distinct.add(h((files, d["args"])))
         if d["rc"] in (3, 4, 124):
-            res.violations.append(Violation({"identity": "C17", "crash": "C03", "crash-each": "C08"}.get(what, "C04"), f"e2e.{what}", f"pytest {d['args']} ended with status {d['rc']}: {d['out'][-300:]}",
+            res.violations.append(Violation({"identity": "C17", "crash": "C03", "crash-each": "C08", "warnings": "C14"}.get(what, "C04"), f"e2e.{what}", f"pytest {d['args']} ended with status {d['rc']}: {d['out'][-300:]}",
                                             f"e2e-internal-error:{d['rc']}", ops, {}))
             continue
         if what == "identity":
@@ -417,6 +429,21 @@ def check_warnings(res: CompResult, dist: dict[str, Any], base: dict[str, Any], 
         return Counter((x["category"], x["message"], x["filename"], x["lineno"], nid(x["nodeid"])) for x in r["records"]
                        if x["k"] == "warning" and x["side"] == "ctl" and x["filename"].startswith("test_"))
 
+    # the warnings of these suites (config-time, in tests, at session end) must not cost a single test
+    def reported(r: dict[str, Any]) -> set:
+        return {nid(x["nodeid"]) for x in r["records"] if x["k"] == "report" and x["side"] == "ctl"}
+
+    missing = sorted(reported(base) - reported(dist))
+    if missing and dist["rc"] not in (3, 4, 124):
+        res.violations.append(Violation("C14", "e2e.warnings", f"{label}: {len(missing)} test(s) of the single-process run have no report at all in the distributed run "
+                                        f"(e.g. {missing[:2]}); exit status {dist['rc']}; tail: {dist['out'][-200:]}", "tests-lost-in-warnings-run", ops, {}))
+    # warnings raised in the workers' pytest_sessionfinish (conftest): one per worker that took part
+    took_part = sorted({x["worker"] for x in dist["records"] if x["k"] == "proto" and x.get("worker")})
+    arrived = {x["message"] for x in dist["records"] if x["k"] == "warning" and x["side"] == "ctl"}
+    lost = [w for w in took_part if not any(f"finish-warning-of-{w}" in m for m in arrived)]
+    if lost and dist["rc"] not in (3, 4, 124):
+        res.violations.append(Violation("C14", "e2e.warnings", f"{label}: the warning raised in pytest_sessionfinish of worker(s) {lost} never reached the controller",
+                                        "sessionfinish-warning-lost", ops, {}))
     a, b = ws(dist), ws(base)
     if a != b:
         res.violations.append(Violation("C14", "e2e.warnings", f"{label}: warnings on the controller {sorted((a - b).elements())[:3]} extra, "
